@@ -680,6 +680,7 @@ func genPayload(r *rng, maxSize int) ([]byte, string) {
 func caseSnappy(ks *kase, maxSize int) {
 	r := ks.r
 	w := compress.NewSnappyWriter()
+	defer func() { _ = w.Close() }() // Bytes() re-arms the writer: release its goroutine when the case ends
 	rd := compress.NewSnappyReader()
 	rounds := 1 + r.intn(5)
 	type kept struct {
